@@ -445,6 +445,47 @@ def rule_overwrite(ctx):
     return res.finish(1)
 
 
+def rule_samesigma(ctx):
+    """With whitening the embedding is divided by the singular values, and the model stores singular values next to it:
+    explained variances, ratios and the whitened covariance are statements about one and the same spectrum.  If the value
+    stored in the `sigma` field is not the one the embedding was divided by (rescaled, re-floored or recomputed in between),
+    the whitened projection has the covariance (stored / used)^2 instead of the identity."""
+    res = RuleResult("R-C18-samesigma", "the singular values that scale the whitened embedding in PcaParams::fit are the ones stored in the model")
+    F = ctx.facts()
+    n = 0
+    for fn in F.all_fns():
+        d = fn["d"]
+        if d["krate"] != "linfa_reduction" or d["name"] != "fit" or "pca" not in fn_file(fn) or fn.get("exp"):
+            continue
+        c = fn["crate"]
+        lit = next((y for y in walk(fn["body"]) if y.get("k") == "Struct" and (c.dfn(y.get("def")) or {}).get("path", "").endswith("Pca")), None)
+        if lit is None:
+            continue
+        n += 1
+        key = fn_key(fn)
+        res.instance("%s : sigma stored / sigma dividing the embedding" % key)
+        stored = next((peel_refs(f_["e"]) for f_ in lit.get("fields") or [] if f_["name"] == "sigma"), None)
+        used = set()
+        for y in walk(fn["body"]):
+            # `v_t *= cov_scale / *sigma` over `zip(sigma.iter())`, or a division by the spectrum array
+            if y.get("k") == "MethodCall" and y["name"] == "zip":
+                for a in y["args"]:
+                    a0 = peel_refs(a)
+                    while a0.get("k") == "MethodCall" and a0["name"] in ("iter", "into_iter", "view", "iter_mut"):
+                        a0 = peel_refs(a0["recv"])
+                    if a0.get("k") == "Path" and "local" in a0 and "Dim<[usize; 1]>" in (c.ty(a0.get("at", a0.get("t"))) or ""):
+                        used.add(a0["local"])
+        if stored is None or stored.get("k") != "Path" or "local" not in stored or not used:
+            res.undecided("%s : sigma-sites" % key, "the stored `sigma` or the spectrum that divides the embedding was not found as a plain local (fail closed)", fn_loc(fn))
+        elif stored["local"] in used:
+            res.ok()
+        else:
+            res.violate("%s : whitening-uses-another-sigma-than-stored" % key, "the embedding is divided by one binding of the singular values and the model stores another (`%s`, rebound in between): with whitening the projected data has the covariance (stored / used)^2, not the identity, and the explained variances describe another spectrum than the one that scaled the components" % stored.get("name"), fn_loc(fn, lit.get("ln")))
+    if n < 1:
+        res.missing_anchor("PcaParams::fit building a Pca")
+    return res.finish(1)
+
+
 def rule_stale(ctx):
     """no field of a fitted model is computed from a local that is stored in another field and mutated in between (rules/stale.py)"""
     from . import stale
@@ -504,10 +545,10 @@ def rule_rowlocal(ctx):
 def rules(tier):
     from . import carry, c04
     from . import precision
-    from . import intnarrow, sizeroute
+    from . import intnarrow, sizeroute, c16
     return [sizeroute.make_rule("R-C18-sizeroute", lambda f: f["d"]["krate"] == "linfa_reduction", "linfa-reduction"),
             intnarrow.make_rule("R-C18-narrow", lambda f: f["d"]["krate"] == "linfa_reduction" and "pca" in fn_file(f), "linfa-reduction pca"),
-            rule_ratiosquares, rule_whitenscale, rule_centreonce, rule_guard, rule_n, rule_project, rule_memorder, rule_overwrite, rule_stale, rule_ratio_paths, c01.rule_width,
+            rule_ratiosquares, rule_samesigma, c16.make_absfloor_rule("R-C18-absfloor", lambda f: f["d"]["krate"] == "linfa_reduction" and f["d"]["name"] == "fit" and "pca" in fn_file(f) and not f.get("exp"), "PcaParams::fit"), rule_whitenscale, rule_centreonce, rule_guard, rule_n, rule_project, rule_memorder, rule_overwrite, rule_stale, rule_ratio_paths, c01.rule_width,
             carry.make_clone_rule("R-C18-clone", {"linfa_reduction"}, 4), carry.make_setter_rule("R-C18-override", {"linfa_reduction"}, 2), rule_rowlocal,
             precision.make_rule("R-C18-precision", lambda f: f["d"]["krate"] == "linfa_reduction" and "pca" in fn_file(f), 9, "linfa-reduction pca"),
             carry.make_accessor_rule("R-C18-accessor", {"linfa_reduction"}, 4), carry.make_ctor_rule("R-C18-ctor", {"linfa_reduction"}, 2)]
